@@ -875,6 +875,113 @@ def desugar_closure_calls(raw, originals, stats=None, owner=None):
     return changed
 
 
+
+def desugar_collect(raw, originals, stats=None, owner=None):
+    """`base.map(|x| f(x)).collect::<Vec<_>>()` / `base.filter_map(|x| g(x)).collect::<Vec<_>>()`: the closure runs inside
+    `collect`, once per item, in order -- presented as the loop `for x in base { out.push(f(x)) }` resp.
+    `for x in base { if let Some(v) = g(x) { out.push(v) } }` with the closure body spliced in.  Only a single adapter whose
+    result is used by nothing but the `collect`, a closure written in place, and a `Vec` result are handled."""
+    changed = False
+    blocks = raw["blocks"]
+    L = raw["locals"]
+    def new_local(ty):
+        L.append({"ty": ty, "mut": True, "user": False, "synthetic": True})
+        return len(L) - 1
+    for bi in range(len(blocks)):
+        t = blocks[bi]["term"]
+        if t["k"] != "call" or blocks[bi].get("cleanup") or t.get("target") is None:
+            continue
+        d, _r = _fn_def(t)
+        if d != "std::iter::Iterator::collect" or len(t["args"]) != 1:
+            continue
+        gargs = ((t.get("func") or {}).get("fn") or {}).get("gargs") or []
+        if len(gargs) < 2 or not gargs[1].startswith("std::vec::Vec<"):
+            continue
+        itop = t["args"][0]
+        if itop.get("k") != "move" or itop["p"][1]:
+            continue
+        itl = itop["p"][0]
+        # the adapter call that produced the iterator
+        ad_bi = None
+        for bj, b in enumerate(blocks):
+            tt = b["term"]
+            if tt["k"] == "call" and tt.get("dest") == [itl, []]:
+                if ad_bi is not None:
+                    ad_bi = -1
+                    break
+                ad_bi = bj
+        if ad_bi is None or ad_bi < 0 or _uses_of_local(blocks, itl) != 1:
+            continue
+        at = blocks[ad_bi]["term"]
+        ad, _r2 = _fn_def(at)
+        if ad not in ("std::iter::Iterator::map", "std::iter::Iterator::filter_map") or len(at["args"]) != 2 or at.get("target") is None:
+            continue
+        cop = at["args"][1]
+        if cop.get("k") != "move" or cop["p"][1]:
+            continue
+        cst = _single_closure_def(raw, cop["p"][0])
+        if cst is None:
+            continue
+        q = originals.get(cst["rv"]["def"])
+        if q is None or q.kind != "closure" or q.arg_count != 2:
+            continue
+        if len(blocks) + len(q.raw["blocks"]) + 12 > MAX_BLOCKS:
+            continue
+        ln = t.get("l")
+        ainfo = ((at.get("func") or {}).get("fn") or {})
+        base_ty = ainfo.get("self_ty") or (ainfo.get("gargs") or ["<iterator>"])[0]
+        it = new_local(base_ty)
+        rit = new_local("&mut " + base_ty)
+        item_ty = q.raw["locals"][2]["ty"]
+        nxt = new_local("std::option::Option<%s>" % item_ty)
+        dsc = new_local("isize")
+        rv_l = new_local(q.raw["locals"][0]["ty"])
+        out_ref = new_local("&mut " + gargs[1])
+        unit = new_local("()")
+        is_fm = ad.endswith("filter_map")
+        blk = lambda stmts, term: {"cleanup": False, "inl": q.id, "stmts": stmts, "term": term}
+        asg = lambda lhs, rv: {"k": "assign", "l": ln, "lhs": lhs, "rv": rv, "inl": q.id}
+        def syn_call(defname, val, args, dest, target, extra=None):
+            fninfo = {"def": defname, "gargs": []}
+            if extra:
+                fninfo.update(extra)
+            return {"l": ln, "k": "call", "synthetic": True, "func": {"k": "const", "ty": "fn", "val": val, "fn": fninfo}, "args": args, "dest": dest, "target": target}
+        H = len(blocks); blocks.append(None)
+        S = len(blocks); blocks.append(None)
+        B = len(blocks); blocks.append(None)
+        R = len(blocks); blocks.append(None)
+        P = len(blocks); blocks.append(None)
+        U = len(blocks); blocks.append(blk([], {"l": ln, "k": "unreachable"}))
+        entry, lb, pro = splice_closure(raw, q, cop["p"][0], [{"k": "move", "p": [nxt, ["d:1:Some", "f:0:0"]]}], R, ln)
+        next_resolved = ("<%s<I> as std::iter::Iterator>::next" % base_ty.split("<")[0]) if "<" in base_ty else None
+        blocks[H] = blk([asg([rit, []], {"k": "ref", "mut": True, "p": [it, []]})],
+                        syn_call("std::iter::Iterator::next", "<%s as std::iter::Iterator>::next" % base_ty, [{"k": "move", "p": [rit, []]}], [nxt, []], S,
+                                 {"trait": "std::iter::Iterator", "self_ty": base_ty, "resolved": next_resolved} if next_resolved else {"trait": "std::iter::Iterator", "self_ty": base_ty}))
+        blocks[S] = blk([asg([dsc, []], {"k": "disc", "p": [nxt, []], "ty": "std::option::Option<%s>" % item_ty, "adt": "std::option::Option", "variants": [["None", "0"], ["Some", "1"]]})],
+                        {"l": ln, "k": "switch", "discr": {"k": "move", "p": [dsc, []]}, "dty": "isize", "targets": [["0", t["target"]], ["1", B]], "otherwise": U})
+        blocks[B] = blk(pro, {"l": ln, "k": "goto", "target": entry})
+        push = lambda val_op: syn_call("std::vec::Vec::<T, A>::push", "std::vec::Vec::<T, A>::push", [{"k": "move", "p": [out_ref, []]}, val_op], [unit, []], H, {"impl_self": "std::vec::Vec<T, A>"})
+        if is_fm:
+            dsc2 = new_local("isize")
+            blocks[R] = blk([asg([rv_l, []], {"k": "use", "op": {"k": "move", "p": [lb, []]}}),
+                             asg([dsc2, []], {"k": "disc", "p": [rv_l, []], "ty": q.raw["locals"][0]["ty"], "adt": "std::option::Option", "variants": [["None", "0"], ["Some", "1"]]})],
+                            {"l": ln, "k": "switch", "discr": {"k": "move", "p": [dsc2, []]}, "dty": "isize", "targets": [["0", H], ["1", P]], "otherwise": U})
+            blocks[P] = blk([asg([out_ref, []], {"k": "ref", "mut": True, "p": list(t["dest"])})], push({"k": "move", "p": [rv_l, ["d:1:Some", "f:0:0"]]}))
+        else:
+            blocks[R] = blk([asg([rv_l, []], {"k": "use", "op": {"k": "move", "p": [lb, []]}})], {"l": ln, "k": "goto", "target": P})
+            blocks[P] = blk([asg([out_ref, []], {"k": "ref", "mut": True, "p": list(t["dest"])})], push({"k": "move", "p": [rv_l, []]}))
+        # the adapter call only hands the base iterator on; the collect call creates the (empty) result and starts the loop
+        ab = blocks[ad_bi]
+        ab["stmts"].append(asg([it, []], {"k": "use", "op": at["args"][0]}))
+        ab["term"] = {"l": at.get("l"), "k": "goto", "target": at["target"], "inl_call": q.id}
+        b = blocks[bi]
+        b["term"] = syn_call("std::vec::Vec::<T>::new", "std::vec::Vec::<T>::new", [], t["dest"], H, {"impl_self": "std::vec::Vec<T>"})
+        changed = True
+        if stats is not None:
+            stats.append((owner or raw.get("id"), q.id))
+    return changed
+
+
 def inline_body(db, f, originals, stats=None, mode="cons"):
     """returns a new raw dict for f with inlinable local calls spliced in, or None if nothing was inlined"""
     raw = None
@@ -903,6 +1010,13 @@ def inline_body(db, f, originals, stats=None, mode="cons"):
                 if raw is None:
                     raw = copy.deepcopy(f.raw)
                 if desugar_for_each(raw, originals, stats, f.id):
+                    changed = True
+        if comb and not os.environ.get("VERIF_NO_COLLECT"):
+            srcc = raw if raw is not None else f.raw
+            if any(b["term"]["k"] == "call" and _fn_def(b["term"])[0] == "std::iter::Iterator::collect" for b in srcc["blocks"]):
+                if raw is None:
+                    raw = copy.deepcopy(f.raw)
+                if desugar_collect(raw, originals, stats, f.id):
                     changed = True
         if comb and not os.environ.get("VERIF_NO_FETCH_UPDATE"):
             # (only the "+c" views: rules that know the closure form of a status-word update see it in the others)
